@@ -544,3 +544,298 @@ def c10_reporter(out, tier, seed):
                     u.holds(ctx, "run_progress returns exactly the draws run would return, in chain order", z3.And(conj), replay_reporter, inst)
         u.reached("reporter runs to completion with %d chains" % nc, n_ok)
     u.done()
+
+
+def c10_reporter_nuts(out, tier, seed):
+    """NUTS::run_progress as a whole (its own copy of the reporter loop), workers = real NUTSChain::run_progress with the
+    transition summarised."""
+    eng = mir_load.load_engine()
+    cfgs = [(2, 2), (6, 1)] + ([(7, 1), (3, 2)] if tier == "thorough" else [])
+    u = MUnit(out, "C10", "c10_reporter_nuts", eng,
+              functions=["NUTS::run_progress (+ all closures, incl. the reporter thread's body)", "NUTSChain::run_progress", "NUTSChain::init_chain",
+                         "stats::ChainTracker", "stats::collect_rhat"],
+              bounds=["(chains, latest arrival iteration) in %s; dim 1, n_collect = 4, n_discard = 1; backend f32" % (cfgs,)],
+              assumptions=ASSUME + ["reporter executed at join time against an arbitrary arrival schedule of the final reports; workers "
+                                    "report once and their sends succeed; indicatif no-op; RunStats::from and find_reasonable_epsilon summarised"],
+              out_of_scope=["wall-clock time, real scheduling, terminal output", "intermediate (non-final) reports"])
+    eng.typemap["T"] = "f32"
+    eng.typemap["FloatElem"] = "f32"
+
+    def summary(e, callee, args):
+        return Struct("RunStats", ["ess", "rhat"], [Opaque("BasicStats"), Opaque("BasicStats")])
+    eng.override(r"^<RunStats as From<.*>>::from$", summary)
+    eng.override(r"^Instant::now$", lambda e, c, a: Num(0))
+    hist = {}
+
+    def step(e, callee, args):
+        me = args[0]
+        while isinstance(me, Ref):
+            me = me.get()
+        cid = me.get("t_0") - 10
+        h = hist.setdefault(cid, [])
+        v = e.ctx.fresh_real("q%d_%d" % (cid, len(h)))
+        h.append(v)
+        me.set("position", tensor([v]))
+        return Tuple([])
+
+    def fre(e, callee, args):
+        x = e.ctx.fresh_real("eps0")
+        e.ctx.assume(x.z() > 0)
+        return x
+    eng.override(r"^NUTSChain::<.*>::step$", step)
+    eng.override(r"^find_reasonable_epsilon::<", fre)
+
+    def send(e, callee, args):
+        tx = args[0]
+        while isinstance(tx, Ref):
+            tx = tx.get()
+        ch = tx.fields[0]
+        ch.sent.append(args[1])
+        ch.results.append(True)
+        return Ok(Tuple([]))
+    eng.override(r"^std::sync::mpsc::Sender::<.*>::send$", send)
+    state = {}
+
+    def spawn(e, callee, args):
+        state["reporter"] = args[0]
+        return Struct("JoinHandle", ["closure"], [args[0]])
+
+    def join(e, callee, args):
+        ctx = e.ctx
+        rxs = state["reporter"].fields[state["reporter"].names.index("rxs")]
+        state["arrival"] = []
+        for rx in rxs.items:
+            ch = rx.fields[0]
+            a = 0
+            for k in range(state["latest"]):
+                if ctx.branch(ctx.fresh_bool("late"), "arrival"):
+                    a += 1
+                else:
+                    break
+            state["arrival"].append(a)
+            ch.queue = [(a, m) for m in ch.sent]
+        ctx.sleeps = 0
+        ctx.sleep_limit = state["latest"] + (len(rxs.items) + 4) // 5 + 2
+        e.call_closure(state["reporter"], [])
+        state["iterations"] = ctx.sleeps
+        return Ok(Tuple([]))
+    eng.override(r"^std::thread::spawn::<", spawn)
+    eng.override(r"^JoinHandle::<.*>::join$", join)
+    fn = eng.find_fn("NUTS::run_progress")
+    for (nc, latest) in cfgs:
+        def run(ctx, nc=nc, latest=latest):
+            import models_core
+            state.clear()
+            hist.clear()
+            state["latest"] = latest
+            ctx.assume(z3.And(models_core.EPS.z() > 0, models_core.EPS.z() < z3.RealVal("1/1000000")))
+            inits = [ctx.fresh_real("q%d_init" % c) for c in range(nc)]
+            # chain id is smuggled through t_0 (10 + id): the summarised transition does not read it
+            chains = [nuts_chain_struct(eng, m=0, t_0=10 + c, epsilon=Num(-1), position=tensor([inits[c]]), rng=Opaque("rng")) for c in range(nc)]
+            s = Struct("NUTS", eng.src_index["structs"]["NUTS"], [RVec(chains)])
+            r = eng.call_fn(fn, [Ref.to(s), 4, 1])
+            return inits, r, dict(state), {k: list(v) for k, v in hist.items()}
+        n_ok = 0
+        for ctx, res in eng.explore(run, max_paths=6000):
+            u.paths += 1
+            if isinstance(res, mirsym.BoundHit):
+                u.holds(ctx, "the NUTS reporter terminates within latest-arrival + ceil(chains/5) + 2 iterations for every completion order",
+                        False, replay_reporter_nuts, "chains=%d: %s" % (nc, res))
+                continue
+            if isinstance(res, Exception):
+                u.holds(ctx, "NUTS progress mode with a live reporter neither panics nor errs", False, replay_reporter_nuts, "chains=%d: %r" % (nc, res))
+                continue
+            inits, r, st, hs = res
+            n_ok += 1
+            inst = "chains=%d arrivals=%s iterations=%s" % (nc, st.get("arrival"), st.get("iterations"))
+            u.holds(ctx, "NUTS progress mode with a live reporter neither panics nor errs", r.variant == "Ok", replay_reporter_nuts, inst)
+            u.holds(ctx, "the NUTS reporter terminates within latest-arrival + ceil(chains/5) + 2 iterations for every completion order",
+                    True, None, inst)
+            if r.variant == "Ok":
+                a = r.fields[0].fields[0].a
+                ok = tuple(a.shape) == (nc, 4, 1)
+                u.holds(ctx, "NUTS::run_progress returns shape [n_chains, n_collect, dim]", ok, replay_reporter_nuts, inst)
+                if ok:
+                    # progress mode performs n_collect + n_discard transitions and keeps those with index >= n_discard:
+                    # entry k is the state after n_discard + k + 1 transitions (run's trajectory shifted by its one-draw offset)
+                    conj = [same(a[c, k, 0], hs[c][1 + k]) for c in range(nc) for k in range(4)]
+                    u.holds(ctx, "NUTS::run_progress returns each chain's states after n_discard+k+1 transitions, in chain order",
+                            z3.And(conj), replay_reporter_nuts, inst)
+                    u.holds(ctx, "every NUTS chain performs exactly n_collect + n_discard transitions in progress mode",
+                            all(len(hs[c]) == 5 for c in range(nc)), replay_reporter_nuts, inst)
+        u.reached("NUTS reporter runs to completion with %d chains" % nc, n_ok)
+    u.done()
+
+
+def replay_reporter_nuts(model=None):
+    tried = []
+    for k in (6, 2):
+        case = {"case": "progress_terminates_nuts", "chains": k, "limit_s": 40}
+        nat = native(case)
+        bad = [p for p, r in nat.items() if isinstance(r, dict) and (r.get("timeout") or r.get("panic") or r.get("ok") is False
+                                                                      or r.get("shifted_trajectory") is False)]
+        tried.append({"case": case, "native": nat})
+        if bad:
+            return True, {"case": case, "native": nat, "reproduced_in": bad}
+    return False, {"tried": tried}
+
+
+def c07_parallel_closure(out, tier, seed):
+    """Schedule independence, as far as the code decides it: the closure handed to rayon's par_iter_mut().map() captures
+    nothing but the run lengths, and touches only the chain it is given."""
+    eng = mir_load.load_engine()
+    u = MUnit(out, "C07", "c07_parallel_closure", eng,
+              functions=["ChainRunner::run (closure construction)", "NUTS::run (closure construction)"],
+              bounds=["syntactic: every closure constructed in the two bodies"],
+              assumptions=["rayon's contract: map() applies the closure to each element exactly once; results are collected in index "
+                           "order; with a closure that captures no shared mutable state the result cannot depend on the thread count "
+                           "or schedule (an argument from the contract, not a solver result about real threads)"],
+              out_of_scope=["real thread schedules", "burn's internal thread-safety"])
+    for name in ("ChainRunner::run", eng.find_fn("NUTS::run")):
+        fn = eng.dump.get(name)
+        caps = []
+        for b in fn.blocks.values():
+            for st in b.stmts:
+                if st.rvalue.kind == "closure":
+                    caps.append(sorted(n for n, _ in st.rvalue.args[1]))
+        ok = bool(caps) and all(set(c) <= {"n_collect", "n_discard"} for c in caps)
+        u.holds(None_ctx(eng), "the per-chain closure run in parallel captures only the run lengths (no shared mutable state)", ok,
+                None, "%s captures %s" % (name.split("::")[-2:], caps))
+    u.done()
+
+
+def None_ctx(eng):
+    return mirsym.Ctx(eng, [])
+
+
+def c10_hmc_progress(out, tier, seed):
+    eng = mir_load.load_engine()
+    cfgs = [(2, 4, 1, 1), (3, 4, 0, 2)] + ([(2, 5, 3, 1)] if tier == "thorough" else [])
+    u = MUnit(out, "C10", "c10_hmc_progress", eng, functions=["HMC::run_progress (+ closures)", "stats::MultiChainTracker::{new, step, max_rhat, rhat, stats}"],
+              bounds=["(chains, n_collect, n_discard, dim) in %s; T = backend element = f32" % (cfgs,)],
+              assumptions=ASSUME + ["indicatif no-op; RunStats::from_f32_view summarised"], out_of_scope=["terminal output"])
+    eng.typemap["T"] = "f32"
+    eng.typemap["FloatElem"] = "f32"
+
+    def summary(e, callee, args):
+        return Struct("RunStats", ["ess", "rhat"], [Opaque("BasicStats"), Opaque("BasicStats")])
+    eng.override(r"^<RunStats as From<.*>>::from$|^RunStats::from_f32_view$", summary)
+    fn = eng.find_fn("HMC::run_progress")
+    for (nc, ncol, ndis, dim) in cfgs:
+        hist = []
+
+        def step(e, callee, args, nc=nc, dim=dim):
+            me = args[0]
+            while isinstance(me, Ref):
+                me = me.get()
+            vals = [e.ctx.fresh_real("p%d" % len(hist)) for _ in range(nc * dim)]
+            hist.append(vals)
+            me.set("positions", Ten(obj_array(vals, (nc, dim)), dtype="FloatElem"))
+            return Tuple([])
+        eng.overrides = [(p, f) for (p, f) in eng.overrides if "HMC" not in p.pattern]
+        eng.override(r"^HMC::<.*>::step$", step)
+
+        def run(ctx, nc=nc, ncol=ncol, ndis=ndis, dim=dim):
+            del hist[:]
+            p0 = [ctx.fresh_real("p_init") for _ in range(nc * dim)]
+            me = hmc_struct(eng, step_size=Num(1), n_leapfrog=1, positions=Ten(obj_array(p0, (nc, dim)), dtype="FloatElem"), rng=Opaque("rng"))
+            r = eng.call_fn(fn, [Ref.to(me), ncol, ndis])
+            return r, [list(h) for h in hist]
+        for ctx, res in eng.explore(run, max_paths=200):
+            u.paths += 1
+            inst = "chains=%d n_collect=%d n_discard=%d dim=%d" % (nc, ncol, ndis, dim)
+            if isinstance(res, Exception):
+                u.holds(ctx, "HMC progress mode neither panics nor errs", False, None, inst + ": %r" % (res,))
+                continue
+            r, hs = res
+            u.holds(ctx, "HMC progress mode neither panics nor errs", r.variant == "Ok", None, inst)
+            if r.variant != "Ok":
+                continue
+            a = r.fields[0].fields[0].a
+            ok = tuple(a.shape) == (nc, ncol, dim) and len(hs) == ncol + ndis
+            u.holds(ctx, "HMC::run_progress returns shape [n_chains, n_collect, dim] after exactly n_collect + n_discard transitions", ok, None, inst)
+            if ok:
+                conj = [same(a[c, k, i], hs[ndis + k][c * dim + i]) for c in range(nc) for k in range(ncol) for i in range(dim)]
+                u.holds(ctx, "HMC::run_progress returns exactly the draws run would return", z3.And(conj), None, inst)
+    u.done()
+
+
+def c18_init_stream(out, tier, seed):
+    """init helpers from MIR with a generator-state-aware draw model: a generator is (seed, position); the k-th draw of a
+    generator seeded with s is the symbol stream(s, k); cloning a generator copies both.  Every entry of the result must be
+    the next draw of the one seeded generator, in row-major order (hence pure, prefix-stable, no draw reused)."""
+    eng = mir_load.load_engine()
+    sizes = [(3, 2), (0, 3), (3, 0), (65, 1), (2, 70)] + ([(130, 2), (1, 300)] if tier == "thorough" else [])
+    u = MUnit(out, "C18", "c18_init_stream", eng, functions=["core::init_with_seed", "core::init_det", "core::init", "core::_init (+ closures)"],
+              bounds=["(n, d) in %s; seed symbolic over all of u64; f64 and f32 element types share the MIR" % (sizes,)],
+              assumptions=["a SmallRng is identified by (seed, number of draws taken); StandardNormal.sample(rng) returns stream(seed, k) and "
+                           "advances k; seed_from_u64 / from_os_rng create position 0; Clone copies seed and position"],
+              out_of_scope=["that stream(s, .) is an i.i.d. standard-normal sequence (statistical)", "finiteness (rand_distr's contract)"])
+    STREAM = z3.Function("normal_stream", z3.IntSort(), z3.IntSort(), z3.RealSort())
+
+    def zi_(x):
+        return z3.IntVal(x) if isinstance(x, int) else x
+
+    def seed_from(e, c, a):
+        return Struct("SmallRng", ["seed", "pos"], [a[0], 0])
+
+    def from_os(e, c, a):
+        s = e.ctx.fresh_int("os_seed")
+        return Struct("SmallRng", ["seed", "pos"], [s, 0])
+
+    def sample(e, c, a):
+        rng = a[1]
+        while isinstance(rng, Ref):
+            rng = rng.get()
+        v = Num(STREAM(zi_(rng.fields[0]), z3.IntVal(rng.fields[1])))
+        rng.fields[1] += 1
+        return v
+    eng.override(r"SmallRng as .*SeedableRng>::seed_from_u64$", seed_from)
+    eng.override(r"SmallRng as .*SeedableRng>::from_os_rng$", from_os)
+    eng.override(r"^<StandardNormal as (rand_distr::)?Distribution<f64>>::sample::<", sample)
+    eng.override(r"SmallRng as rand::Rng>::sample::<f64, StandardNormal>$", lambda e, c, a: sample(e, c, [None, a[0]]))
+    fns = {"init_with_seed": "init_with_seed", "init_det": "init_det", "init": "init"}
+    for (n, d) in sizes:
+        for which in ("init_with_seed", "init_det", "init"):
+            if which != "init_with_seed" and (n, d) not in ((3, 2), (65, 1)):
+                continue
+
+            def run(ctx, n=n, d=d, which=which):
+                s = ctx.fresh_int("seed")
+                ctx.assume(z3.And(s >= 0, s <= 2 ** 64 - 1))
+                ctx.counters.pop("os_seed", None)
+                if which == "init_with_seed":
+                    r = eng.call_fn("init_with_seed", [n, d, s])
+                    sd = s
+                elif which == "init_det":
+                    r = eng.call_fn("init_det", [n, d])
+                    sd = z3.IntVal(42)
+                else:
+                    r = eng.call_fn("init", [n, d])
+                    sd = z3.Int("os_seed_0")
+                return r, sd
+            for ctx, res in eng.explore(run):
+                u.paths += 1
+                inst = "%s(n=%d, d=%d)" % (which, n, d)
+                if isinstance(res, Exception):
+                    u.holds(ctx, "the initialiser does not fail", False, None, inst + ": %r" % (res,))
+                    continue
+                r, sd = res
+                ok = isinstance(r, RVec) and len(r.items) == n and all(isinstance(x, RVec) and len(x.items) == d for x in r.items)
+                u.holds(ctx, "the initialiser returns exactly n vectors of length d", ok, replay_init, inst)
+                if not ok:
+                    continue
+                conj = [Num.of(r.items[i].items[j]).z() == STREAM(sd, z3.IntVal(i * d + j)) for i in range(n) for j in range(d)]
+                lab = {"init_with_seed": "entry (i,j) of init_with_seed is draw number i*d+j of the generator seeded with `seed` (pure, "
+                                         "prefix-stable, no draw used twice)",
+                       "init_det": "init_det equals init_with_seed with seed 42",
+                       "init": "init uses one OS-seeded generator, entry (i,j) being its draw number i*d+j"}[which]
+                u.holds(ctx, lab, z3.And(conj) if conj else True, replay_init, inst)
+    u.done()
+
+
+def replay_init(model=None):
+    case = {"case": "init_props"}
+    nat = native(case)
+    bad = [p for p, r in nat.items() if isinstance(r, dict) and (r.get("panic") or any(v is False for v in r.values()))]
+    return bool(bad), {"case": case, "native": nat, "reproduced_in": bad}
